@@ -88,7 +88,7 @@ def real_breaker(ctx, binp):
     cases = gen_token(ctx, "tdrain", configs="{<<5,10>>, <<1,1>>, <<3,2>>, <<2,5>>}", maxlen=n, maxn=1, maxstep=0, maxdown=0)
     path, _ = ctx.write_cases("tdrain.ndjson", cases)
     ctx.replay(PKG, OVERLAY, "^TestVerifC08Token$", path, label="tdrain", shards=4, binp=binp, env=dict(VERIF_REAL_BREAKER=1))
-    cases = gen_token(ctx, "tdrain2", configs="{<<5,10>>, <<3,2>>}", maxlen=(7 if ctx.quick else 9), maxn=2, maxstep=1, maxdown=0)
+    cases = gen_token(ctx, "tdrain2", configs="{<<5,10>>, <<3,2>>}", maxlen=(7 if ctx.quick else 8), maxn=2, maxstep=1, maxdown=0)
     path, _ = ctx.write_cases("tdrain2.ndjson", cases)
     ctx.replay(PKG, OVERLAY, "^TestVerifC08Token$", path, label="tdrain2", shards=16, binp=binp, env=dict(VERIF_REAL_BREAKER=1))
     K = dict(Keys='{"a"}', Configs="{<<3,5>>, <<1,2>>, <<10,3>>}", MaxAdv=0, MaxBurst=1, MaxLen=n)
